@@ -504,6 +504,12 @@ pub fn explore_main(prop: &dyn Prop, tier: Tier, replay_one: impl Fn(&Value) -> 
                 }
             }
             if let Some(why) = failed {
+                if why.contains("signal 9") {
+                    // SIGKILL comes from outside (OOM killer, an operator): not attributable to
+                    // the subject with certainty – a machinery failure, never a verdict.
+                    machinery_error = Some(format!("worker {} was killed by SIGKILL (out of memory?) while running unit/call {:?}", c.shard, prog.map(|p| (p.0, p.1))));
+                    continue;
+                }
                 match prog {
                     Some((u, s, _, _)) if u != u64::MAX => {
                         let case = describe_case(&exe, id, tier, u, s, &rundir);
